@@ -1641,6 +1641,9 @@ def decode_check(d, rec_desc, bmap, applied, dt, autoscale, aff_now=None):
             want = affine_of(d) if aff_now is None else aff_now.tolist()
             if want is not None and not np.allclose(back.affine, np.array(want, dtype=float), rtol=1e-5, atol=1e-4):
                 return f'{rec_desc}: loaded affine differs: {back.affine.tolist()} (image affine {want})'
+            if want is None and cls in ('spm99', 'spm2') and not np.allclose(back.affine, back.header.get_best_affine()):
+                return (f'{rec_desc}: the image has no affine, but its files load with affine {back.affine.tolist()} '
+                        f'instead of the header\'s {back.header.get_best_affine().tolist()} (spurious .mat)')
     else:
         hdr = back.nifti_header
     if not autoscale:
